@@ -543,7 +543,36 @@ EvalCases(cs, v, sc, i) ==
 \* st: the HTTP status the route answers with (200 unless a guard or `> v :: N` says otherwise)
 R(sc, ctl, val, fuel) == [sc |-> sc, ctl |-> ctl, val |-> val, fuel |-> fuel, st |-> 200]
 
-RECURSIVE Exec(_, _, _), While(_, _, _, _), ForEach(_, _, _, _, _), Switch(_, _, _, _, _)
+RECURSIVE Exec(_, _, _), While(_, _, _, _), ForEach(_, _, _, _, _), Switch(_, _, _, _, _), UpdatePath(_, _, _, _, _)
+
+\* the value v with the element that path leads to replaced by nv.  Accessors are taken left to right: .name on an
+\* object (reading a missing field gives null, which nothing can be assigned into), [i] on an array (an integer within
+\* bounds) or an object (a string: read of a missing key fails, the last accessor may add a key).  strictf: the path came
+\* from `$ o.a.b = v`, where every field on the way must exist and hold an object
+UpdatePath(v, path, nv, sc, strictf) ==
+    IF path = <<>> THEN Ok(nv)
+    ELSE LET a == Head(path)
+             last == Len(path) = 1 IN
+         IF a.k = "f"
+           THEN IF v.k # "obj" THEN Err("type")
+                ELSE IF last THEN Ok(SetKey(v, a.name, nv))
+                ELSE IF ~HasKey(v, a.name) THEN Err("type")        \* strict: "does not exist"; otherwise null, and null takes no assignment
+                ELSE LET r == UpdatePath(GetKey(v, a.name), Tail(path), nv, sc, strictf) IN
+                     IF ~r.ok THEN r ELSE Ok(SetKey(v, a.name, r.v))
+           ELSE LET i == Eval(a.x, sc) IN
+                IF ~i.ok THEN i
+                ELSE IF v.k = "arr"
+                  THEN IF i.v.k # "int" \/ Sp(i.v) # "" THEN Err("type")
+                       ELSE IF i.v.v < 0 \/ i.v.v >= Len(v.e) THEN Err("bounds")
+                       ELSE LET r == UpdatePath(v.e[i.v.v + 1], Tail(path), nv, sc, strictf) IN
+                            IF ~r.ok THEN r ELSE Ok(VArr([j \in 1..Len(v.e) |-> IF j = i.v.v + 1 THEN r.v ELSE v.e[j]]))
+                ELSE IF v.k = "obj"
+                  THEN IF i.v.k # "str" THEN Err("type")
+                       ELSE IF last THEN Ok(SetKey(v, i.v.v, nv))
+                       ELSE IF ~HasKey(v, i.v.v) THEN Err("bounds")
+                       ELSE LET r == UpdatePath(GetKey(v, i.v.v), Tail(path), nv, sc, strictf) IN
+                            IF ~r.ok THEN r ELSE Ok(SetKey(v, i.v.v, r.v))
+                ELSE Err("type")
 
 \* a block runs in a fresh child scope that is dropped on every kind of exit
 ExecBlock(stmts, sc, fuel, i) ==
@@ -571,6 +600,26 @@ Exec(s, sc, fuel) ==
             ELSE IF s.n \in DOMAIN sc[1] THEN R(sc, "error", "const", fuel)      \* by name: also when a parameter or loop variable of that name is nearer
             ELSE LET v == Eval(s.x, sc) IN
                  IF ~v.ok THEN R(sc, "error", v.err, fuel) ELSE R(SetVar(sc, s.n, v.v), "next", v.v, fuel - 1)
+      [] s.s = "pset" ->          \* $ o.a.b = e   (fields only)   /   a[i] = e,  $ o.items[i].n = e   (an index somewhere)
+            \* written without `$`, a path that starts with a field is not a statement of the language
+            IF ~s.dollar /\ s.path[1].k = "f" THEN R(sc, "error", "syntax", fuel)
+            ELSE IF Defined(sc, s.n) /\ IsModuleConst(sc, s.n) THEN R(sc, "error", "const", fuel)      \* no assignment reaches into a constant
+            ELSE IF \A j \in 1..Len(s.path) : s.path[j].k = "f"
+              THEN \* the variable must exist and hold an object before the value is looked at
+                   IF ~Defined(sc, s.n) THEN R(sc, "error", "undefined", fuel)
+                   ELSE IF Lookup(sc, s.n).v.k # "obj" THEN R(sc, "error", "type", fuel)
+                   ELSE LET v == Eval(s.x, sc) IN
+                        IF ~v.ok THEN R(sc, "error", v.err, fuel)
+                        ELSE LET r == UpdatePath(Lookup(sc, s.n).v, s.path, v.v, sc, TRUE) IN
+                             IF ~r.ok THEN R(sc, "error", r.err, fuel)
+                             ELSE R(SetVar(sc, s.n, r.v), "next", v.v, fuel - 1)
+              ELSE \* the value first, then the path
+                   LET v == Eval(s.x, sc) IN
+                   IF ~v.ok THEN R(sc, "error", v.err, fuel)
+                   ELSE IF ~Defined(sc, s.n) THEN R(sc, "error", "undefined", fuel)
+                   ELSE LET r == UpdatePath(Lookup(sc, s.n).v, s.path, v.v, sc, FALSE) IN
+                        IF ~r.ok THEN R(sc, "error", r.err, fuel)
+                        ELSE R(SetVar(sc, s.n, r.v), "next", v.v, fuel - 1)
       [] s.s = "expr" ->
             LET v == Eval(s.x, sc) IN IF ~v.ok THEN R(sc, "error", v.err, fuel) ELSE R(sc, "next", v.v, fuel - 1)
       [] s.s = "ret" ->           \* > e   or   > e :: status
@@ -720,12 +769,14 @@ SrcMCases(cs, i) == IF i > Len(cs) THEN ""
 SrcList(es, i) == IF i > Len(es) THEN "" ELSE SrcE(es[i], 0) \o (IF i < Len(es) THEN ", " ELSE "") \o SrcList(es, i + 1)
 SrcFields(fs, i) == IF i > Len(fs) THEN "" ELSE fs[i].name \o ": " \o SrcE(fs[i].v, 0) \o (IF i < Len(fs) THEN ", " ELSE "") \o SrcFields(fs, i + 1)
 
-RECURSIVE SrcS(_, _), SrcCases(_, _, _)
+RECURSIVE SrcS(_, _), SrcCases(_, _, _), SrcPath(_, _)
+SrcPath(path, i) == IF i > Len(path) THEN "" ELSE (IF path[i].k = "f" THEN "." \o path[i].name ELSE "[" \o SrcE(path[i].x, 0) \o "]") \o SrcPath(path, i + 1)
 Ind(n) == IF n = 0 THEN "" ELSE IF n = 1 THEN "  " ELSE IF n = 2 THEN "    " ELSE IF n = 3 THEN "      " ELSE "        "
 SrcS(s, n) ==
     Ind(n) \o
     (CASE s.s = "decl" -> "$ " \o s.n \o " = " \o SrcE(s.x, 0) \o "\n"
        [] s.s = "set" -> s.n \o " = " \o SrcE(s.x, 0) \o "\n"
+       [] s.s = "pset" -> (IF s.dollar THEN "$ " ELSE "") \o s.n \o SrcPath(s.path, 1) \o " = " \o SrcE(s.x, 0) \o "\n"
        [] s.s = "expr" -> SrcE(s.x, 0) \o "\n"
        [] s.s = "ret" -> "> " \o SrcE(s.x, 0) \o (IF s.status = 0 THEN "" ELSE " :: " \o ToString(s.status)) \o "\n"
        [] s.s = "guard" -> "? " \o SrcE(s.c, 0) \o " :: " \o ToString(s.status) \o " \"" \o EscStr(s.msg) \o "\"\n"
